@@ -121,6 +121,8 @@ impl EventSource for TcpStreamConnect {
                 .get_selector()
                 .add_io_timer(&self.io_data, dur);
         }
+        #[cfg(may_verif)]
+        crate::verif::label("io.subscribe.before_store", 0);
         io_data.co.store(co);
 
         // there is event, re-run the coroutine
